@@ -74,7 +74,8 @@ PROPS = {
     ),
     "C13": dict(
         bins={"main": dict(tc="gcc", src="prop_C13.cpp", variants=["plain", "hp"], shims=["hp"])},
-        parts=[dict(name="gp", workers={Q: 16, T: 16}, cases={Q: 400, T: 12000})],
+        parts=[dict(name="gp", workers={Q: 11, T: 11}, cases={Q: 500, T: 16000}),
+               dict(name="exact", workers={Q: 5, T: 5}, cases={Q: 6000, T: 200000})],
         rule=("cases = general-position closed path sets (|coord| <= 2^40) plus transformation parameters (permutation, "
               "rotation and duplication seeds, translation vector, scale 2..7, one of translate/transpose/mirror/scale); for "
               "every clip type x fill rule x PreserveCollinear x ReverseSolution on the default and the HI_PRECISION library: "
